@@ -117,7 +117,7 @@ NOT_APPLICABLE = {
     "C05": "histories of compilations and thread schedules: Kani does not model concurrency and the sequential part needs whole compilations",
     "C08": "relation between two whole compilations (expanded vs compressed): whole-program",
     "C09": "round trip through the plain-CSS parser: nom parser is out of reach",
-    "C10": "the kernel is a Display impl interleaving digit extraction with write! into a String and f64: Display (concrete 1.5: no verdict in 200 s); 'printed decimal = correctly rounded binary' needs FP<->Real reasoning no solver here finishes",
+    "C10": "the kernel is a Display impl interleaving digit extraction with write! into a String and f64: Display (E1: concrete 1.5: no verdict in 200 s); an E2 kernel with the digit string as an exact stack was written late (mirsym/attic/k_number_text.py.txt) but every path-feasibility query drags a chain of fp.roundToIntegral / fp.mul / fp.to_ubv terms and z3 gave no verdict in 900 s even with the digit loop unrolled once; 'printed decimal = correctly rounded binary' needs FP<->Real reasoning no solver here finishes",
     "C15": "precedence and associativity are decided by the nom parser layering",
     "C19": "recursive selector trees of Strings: any harness with one combinator level gave no verdict in 420 s; `&` resolution re-enters the parser",
     "C23": "selector trees: compound-only transitivity took 275 s, one combinator level no verdict in 420 s",
